@@ -51,7 +51,11 @@ func (a *InstrHeader) UnmarshalBinary(data []byte) error {
 	return nil
 }
 
+// DecodeInstr returns nil when data does not hold a complete, supported instruction.
 func DecodeInstr(data []byte) Instruction {
+	if len(data) < 4 {
+		return nil
+	}
 	t := binary.BigEndian.Uint16(data[:2])
 	var a Instruction
 	switch t {
@@ -70,7 +74,12 @@ func DecodeInstr(data []byte) Instruction {
 	case InstrType_EXPERIMENTER:
 	}
 
-	a.UnmarshalBinary(data)
+	if a == nil {
+		return nil
+	}
+	if err := a.UnmarshalBinary(data); err != nil {
+		return nil
+	}
 	return a
 }
 
@@ -96,6 +105,9 @@ func (instr *InstrGotoTable) MarshalBinary() (data []byte, err error) {
 }
 
 func (instr *InstrGotoTable) UnmarshalBinary(data []byte) error {
+	if len(data) < int(instr.Len()) {
+		return errors.New("the []byte is too short to unmarshal a full InstrGotoTable message")
+	}
 	instr.InstrHeader.UnmarshalBinary(data[:4])
 
 	instr.TableId = data[4]
@@ -143,6 +155,9 @@ func (instr *InstrWriteMetadata) MarshalBinary() (data []byte, err error) {
 }
 
 func (instr *InstrWriteMetadata) UnmarshalBinary(data []byte) error {
+	if len(data) < int(instr.Len()) {
+		return errors.New("the []byte is too short to unmarshal a full InstrWriteMetadata message")
+	}
 	instr.InstrHeader.UnmarshalBinary(data[:4])
 
 	copy(instr.pad, data[4:8])
@@ -200,11 +215,17 @@ func (instr *InstrActions) MarshalBinary() (data []byte, err error) {
 }
 
 func (instr *InstrActions) UnmarshalBinary(data []byte) error {
+	if len(data) < 8 {
+		return errors.New("the []byte is too short to unmarshal an InstrActions header")
+	}
 	instr.InstrHeader.UnmarshalBinary(data[:4])
+	if int(instr.Length) > len(data) {
+		return errors.New("the instruction length exceeds the []byte")
+	}
 
 	n := 8
 	for n < int(instr.Length) {
-		act, err := DecodeAction(data[n:])
+		act, err := DecodeAction(data[n:instr.Length])
 		if err != nil {
 			return err
 		}
